@@ -32,6 +32,7 @@ type builderCase struct {
 	expect abs.Payload
 	err    error
 	skip   bool // builder legitimately appended nothing (documented no-op inputs)
+	viol   string // a post-condition of a (sub-)builder already failed inside applyBuilder
 }
 
 func applyBuilder(r *core.Rng, idx int, c *message.IKEPayloadContainer) builderCase {
@@ -50,7 +51,7 @@ func applyBuilder(r *core.Rng, idx int, c *message.IKEPayloadContainer) builderC
 		next, data := uint8(33+r.Intn(16)), d()
 		sk := c.BuildEncrypted(message.IkePayloadType(next), data)
 		if sk == nil || sk != (*c)[len(*c)-1] {
-			return builderCase{name: "BuildEncrypted", err: fmt.Errorf("returned payload is not the appended one")}
+			return builderCase{name: "BuildEncrypted", viol: fmt.Sprintf("returned payload is not the appended one")}
 		}
 		return builderCase{name: "BuildEncrypted", expect: abs.Payload{Kind: abs.PSK, SK: &abs.SK{Next: next, Data: data}}}
 	case 3:
@@ -80,10 +81,16 @@ func applyBuilder(r *core.Rng, idx int, c *message.IKEPayloadContainer) builderC
 		n := 1 + r.Intn(5)
 		for i := 0; i < n; i++ {
 			t, v := r.U16()&0x7fff, r.Bytes(argSize(r, idx/24+i))
+			if i > 0 && r.Chance(1, 3) { // the same attribute type again (e.g. two INTERNAL_IP4_DNS), same or other value
+				t = want.Attrs[len(want.Attrs)-1].Type
+				if r.Bool() {
+					v = append([]byte{}, want.Attrs[len(want.Attrs)-1].Value...)
+				}
+			}
 			before := len(cp.ConfigurationAttribute)
 			cp.ConfigurationAttribute.BuildConfigurationAttribute(t, v)
 			if len(cp.ConfigurationAttribute) != before+1 {
-				return builderCase{name: "BuildConfigurationAttribute", err: fmt.Errorf("attribute list grew by %d", len(cp.ConfigurationAttribute)-before)}
+				return builderCase{name: "BuildConfigurationAttribute", viol: fmt.Sprintf("attribute list grew by %d", len(cp.ConfigurationAttribute)-before)}
 			}
 			want.Attrs = append(want.Attrs, abs.CPAttr{Type: t, Value: v})
 		}
@@ -101,10 +108,13 @@ func applyBuilder(r *core.Rng, idx int, c *message.IKEPayloadContainer) builderC
 		n := r.Pick(1, 1, 2, 3, 255, 256)
 		for i := 0; i < n; i++ {
 			s := gen.Selector(r)
+			if i > 0 && r.Chance(1, 4) {
+				s = want.Sel[len(want.Sel)-1] // an identical selector again
+			}
 			before := len(*sel)
 			sel.BuildIndividualTrafficSelector(s.Type, s.Proto, s.StartPort, s.EndPort, s.StartAddr, s.EndAddr)
 			if len(*sel) != before+1 {
-				return builderCase{name: "BuildIndividualTrafficSelector", err: fmt.Errorf("selector list grew by %d", len(*sel)-before)}
+				return builderCase{name: "BuildIndividualTrafficSelector", viol: fmt.Sprintf("selector list grew by %d", len(*sel)-before)}
 			}
 			want.Sel = append(want.Sel, s)
 		}
@@ -118,12 +128,23 @@ func applyBuilder(r *core.Rng, idx int, c *message.IKEPayloadContainer) builderC
 			before := len(sa.Proposals)
 			p := sa.Proposals.BuildProposal(num, proto, spi)
 			if len(sa.Proposals) != before+1 || p != sa.Proposals[before] {
-				return builderCase{name: "BuildProposal", err: fmt.Errorf("proposal list grew by %d", len(sa.Proposals)-before)}
+				return builderCase{name: "BuildProposal", viol: fmt.Sprintf("proposal list grew by %d", len(sa.Proposals)-before)}
 			}
 			ap := abs.Proposal{Num: num, Proto: proto, SPI: spi}
 			nt := 1 + r.Intn(6)
 			for j := 0; j < nt; j++ {
 				t := gen.Transform(r, uint8(1+r.Intn(5)))
+				if j > 0 && r.Chance(1, 3) {
+					// the same algorithm offered again: identical, or with another attribute value (e.g. AES-CBC 128/192/256)
+					t = ap.Transforms[len(ap.Transforms)-1]
+					if t.HasAttr && r.Bool() {
+						if t.TV {
+							t.AttrVal += uint16(64 * (1 + r.Intn(3)))
+						} else {
+							t.AttrBytes = gen.DataN(r, len(t.AttrBytes)+r.Intn(2))
+						}
+					}
+				}
 				tc := []*message.TransformContainer{&p.EncryptionAlgorithm, &p.PseudorandomFunction, &p.IntegrityAlgorithm, &p.DiffieHellmanGroup, &p.ExtendedSequenceNumbers}[t.Type-1]
 				before := len(*tc)
 				var at, av *uint16
@@ -137,7 +158,7 @@ func applyBuilder(r *core.Rng, idx int, c *message.IKEPayloadContainer) builderC
 				}
 				tc.BuildTransform(t.Type, t.ID, at, av, t.AttrBytes)
 				if len(*tc) != before+1 {
-					return builderCase{name: "BuildTransform", err: fmt.Errorf("transform list grew by %d", len(*tc)-before)}
+					return builderCase{name: "BuildTransform", viol: fmt.Sprintf("transform list grew by %d", len(*tc)-before)}
 				}
 				ap.Transforms = append(ap.Transforms, t)
 			}
@@ -161,7 +182,7 @@ func applyBuilder(r *core.Rng, idx int, c *message.IKEPayloadContainer) builderC
 		code, id := r.Byte(), r.Byte()
 		pe := c.BuildEAP(eap.EapCode(code), id)
 		if pe == nil || message.IKEPayload(pe) != (*c)[len(*c)-1] {
-			return builderCase{name: "BuildEAP", err: fmt.Errorf("returned payload is not the appended one")}
+			return builderCase{name: "BuildEAP", viol: fmt.Sprintf("returned payload is not the appended one")}
 		}
 		return builderCase{name: "BuildEAP", expect: abs.Payload{Kind: abs.PEAP, EAP: &abs.EAP{Code: code, ID: id}}}
 	case 14:
@@ -252,7 +273,7 @@ func applyBuilder(r *core.Rng, idx int, c *message.IKEPayloadContainer) builderC
 		c.BuildNotifyUP_IP4_ADDRESS("")
 		c.BuildNotifyNAS_TCP_PORT(0)
 		if len(*c) != before {
-			return builderCase{name: "3GPP-noop", err: fmt.Errorf("empty address / zero port appended %d payloads", len(*c)-before)}
+			return builderCase{name: "3GPP-noop", viol: fmt.Sprintf("empty address / zero port appended %d payloads", len(*c)-before)}
 		}
 		return builderCase{name: "3GPP-noop", skip: true}
 	}
@@ -270,13 +291,22 @@ func c19Builder(k *core.Case) {
 	if err != nil {
 		return
 	}
+	bseed := k.R.U64()
+	if k.Index%5 == 2 {
+		// the container already holds the very payload that is about to be built (same builder, same arguments)
+		core.Try(func() { applyBuilder(core.NewRng(bseed), k.Index, &cont) })
+	}
 	before := bridge.ObservePayloads(cont)
 	k.Eval(1)
 	var bc builderCase
-	pn := core.Try(func() { bc = applyBuilder(k.R, k.Index, &cont) })
+	pn := core.Try(func() { bc = applyBuilder(core.NewRng(bseed), k.Index, &cont) })
 	w := M{"builder": bc.name, "prior_payloads": np}
 	if pn != nil {
 		k.Violate("panic", "builder: "+pn.Sig(), "builder panicked", panicData(pn, w))
+		return
+	}
+	if bc.viol != "" {
+		k.Violate("builder", "sub-builder-postcondition/"+bc.name, bc.name+": "+bc.viol, w)
 		return
 	}
 	if bc.skip {
